@@ -8,6 +8,7 @@ import bisect
 import heapq
 from collections.abc import Iterable
 from dataclasses import replace
+from datetime import datetime
 from typing import Any, Literal, cast
 
 from sortedcontainers import SortedList
@@ -229,18 +230,33 @@ class MemoryTimeline(MutableTimeline[Interval]):
         if "recurring_event_id" in interval_fields:
             merged_metadata["recurring_event_id"] = recurring_id
 
+        # Preserve anchored start if provided; otherwise retain time-of-day start.
+        # The anchor is handed over as a datetime in the pattern's own tzinfo and
+        # at its own wall-clock time: an int is an anchor only when > 86400, loses
+        # a fixed-offset tzinfo, and reads an hour late inside a DST gap
+        start: datetime | int
+        tz: str | None
+        if pattern.anchor_timestamp is not None:
+            start = datetime.fromtimestamp(pattern.anchor_timestamp, tz=pattern.zone)
+            wall = start.replace(
+                hour=pattern.start_seconds // 3600,
+                minute=pattern.start_seconds % 3600 // 60,
+                second=pattern.start_seconds % 60,
+            )
+            if int(wall.timestamp()) == pattern.anchor_timestamp:
+                start = wall
+            tz = None
+        else:
+            start = pattern.start_seconds
+            tz = str(pattern.zone)
+
         # Create new pattern with merged metadata
         enriched_pattern = RecurringPattern(
             freq=cast(Literal["daily", "weekly", "monthly", "yearly"], pattern.freq),
             interval=pattern.interval,
             duration=pattern.duration_seconds,
-            # Preserve anchored start if provided; otherwise retain time-of-day start
-            start=(
-                pattern.anchor_timestamp
-                if pattern.anchor_timestamp is not None
-                else pattern.start_seconds
-            ),
-            tz=str(pattern.zone),
+            start=start,
+            tz=tz,
             interval_class=pattern.interval_class,
             exdates=pattern.exdates,
             **_get_recurrence_params(pattern),
